@@ -150,6 +150,7 @@ def run(ctx):
     run_strings(ctx)
     run_counts(ctx)
     run_rel_checker(ctx)
+    run_tuples(ctx)
 
 
 # ---------------------------------------------------------------- string indexing / slicing: per-dialect ASTs on the C25 evaluator
@@ -460,6 +461,80 @@ def run_rel_checker(ctx):
         elif out.get('frag'):
             ctx.divergence('the verified checker rejects the %s statement of a query with a correlated sub-query / a to-one join' % prov, {'query': qsrc}, model=out, impl=None)
         else: ctx.count('rel:checker-not-applicable:' + prov)
+
+
+# ---------------------------------------------------------------- ordering comparisons of tuples (2, 3, 4 components)
+
+def run_tuples(ctx):
+    """`(x1, …, xn) < <= > >= (y1, …, yn)`, n = 2, 3, 4, operands = columns, constants, parameters (mixed).  SQLite has no row values:
+    its real AST must be the verified expansion (op checktuple; C02_tuple_expansion / C02_tuple_checker_sound: lexicographic order for
+    every n) and its REAL answer on data with equal prefixes is compared with the lexicographic order, which is what the row-value
+    comparison `[OP, ROW …, ROW …]` the real PostgreSQL / MySQL translators emit denotes (shape checked)."""
+    from pony.orm import Database, Required
+    rng = ctx.rng
+    ponyutil.add_stubs()
+    from pony.orm.tests.testutils import TestDatabase
+    dbs = {}
+    for prov in ('sqlite', 'postgres', 'mysql'):
+        db = Database() if prov == 'sqlite' else TestDatabase()
+        class T(db.Entity):
+            a = Required(int); b = Required(int); c = Required(int); d = Required(int)
+        db.bind(prov, ':memory:')
+        if prov == 'sqlite': db.generate_mapping(create_tables=True)
+        else: db.generate_mapping(check_tables=False)
+        dbs[prov] = (db, T)
+    db, T = dbs['sqlite']
+    rows = [tuple(rng.choice([0, 1, 1, 2]) for _ in range(4)) for _ in range(ctx.scale(24, 60))] + [(3, 1, 0, 0), (2, 1, 5, 0), (1, 1, 1, 1), (1, 2, 0, 2)]
+    with db_session:
+        for r in rows: T(a=r[0], b=r[1], c=r[2], d=r[3])
+    OPS = {'<': lambda x, y: x < y, '<=': lambda x, y: x <= y, '>': lambda x, y: x > y, '>=': lambda x, y: x >= y}
+    NAME = {'<': 'LT', '<=': 'LE', '>': 'GT', '>=': 'GE'}
+    reqs, meta = [], []
+    for _ in range(ctx.scale(40, 400)):
+        n = rng.choice([2, 3, 3, 4]); op = rng.choice(list(OPS))
+        params = {'pi': rng.choice([0, 1, 2]), 'pj': rng.choice([1, 2])}
+        def operand(cols):
+            k = rng.random()
+            if k < 0.55:
+                c = rng.choice(cols); return ('e.' + c, ['COLUMN', 'e', c], lambda r, c=c: r['abcd'.index(c)])
+            if k < 0.8:
+                v = rng.choice([0, 1, 2]); return (str(v), ['VALUE', v], lambda r, v=v: v)
+            p = rng.choice(['pi', 'pj']); return (p, ['PARAM', p], lambda r, p=p: params[p])
+        L = [operand('abcd') for _ in range(n)]; R = [operand('abcd') for _ in range(n)]
+        if not any(x[1][0] == 'COLUMN' for x in L + R): L[0] = ('e.a', ['COLUMN', 'e', 'a'], lambda r: r[0])
+        src = '(%s) %s (%s)' % (', '.join(x[0] for x in L), op, ', '.join(x[0] for x in R))
+        exp = [i + 1 for i, r in enumerate(rows) if OPS[op](tuple(x[2](r) for x in L), tuple(x[2](r) for x in R))]
+        ctx.count('tuples:size:%d' % n)
+        for prov, (pdb, PT) in dbs.items():
+            ctx.case(['tuples', prov, src], kind='tuples:' + prov)
+            G = dict(params); G['T'] = PT
+            try:
+                with db_session:
+                    q = select('e.id for e in T if ' + src, G)
+                    conds = Q.norm_ast(q._translator.conditions)
+                    got = sorted(q[:]) if prov == 'sqlite' else None
+            except Exception as ex:
+                ctx.count('tuples:%s:raises:%s' % (prov, type(ex).__name__)); continue
+            if prov == 'sqlite':
+                if got != exp:
+                    bad = sorted(set(got) ^ set(exp))
+                    ctx.violation('SQLite (expanded tuple comparison) disagrees with the lexicographic order that the row-value comparison of PostgreSQL / MySQL (and Python) denotes',
+                                  {'query': 'select(e.id for e in T if %s)' % src, 'params': params, 'row (a, b, c, d)': rows[bad[0] - 1], 'sqlite statement': q.get_sql().split('WHERE')[-1].strip()},
+                                  observed={'sqlite selects row': bad[0] in got}, expected={'python / row values select row': bad[0] in exp}, key='tuple-comparison:%d:%s' % (n, op))
+                reqs.append({'op': 'checktuple', 'cmp': op, 'left': [x[1] for x in L], 'right': [x[1] for x in R], 'ast': conds[0] if len(conds) == 1 else ['AND'] + conds})
+                meta.append(src)
+            else:
+                want = [[NAME[op], ['ROW'] + [x[1] for x in L], ['ROW'] + [x[1] for x in R]]]
+                if conds != want:
+                    ctx.divergence('the %s translator does not emit the row-value comparison for a tuple comparison' % prov, {'query': src}, model=want, impl=conds)
+                else: ctx.count('tuples:row-value-shape-ok:' + prov)
+    for pdb, PT in dbs.values():
+        try: pdb.disconnect()
+        except Exception: pass
+    if not ctx.driver.ok: return
+    for src, out in zip(meta, ctx.driver('C02', reqs)):
+        if out.get('accepted'): ctx.count('tuples:checker-accepted')
+        else: ctx.divergence('the real SQLite AST of a tuple comparison is not the verified expansion (C02_tuple_expansion)', {'query': src}, model=out, impl=None)
 
 
 def _nodes(ast):
